@@ -144,6 +144,7 @@ def run(tier, seed):
     qualifier_law(chk)
     keyword_columns_law(chk)
     glue_law(chk, [t for t, valid in texts if valid], tier)
+    insertion_law(chk, [t for t, valid in texts if valid], tier)
     sensitivity_law(chk, [t for t, valid in texts if valid], tier)
     return chk.finish()
 
@@ -300,6 +301,43 @@ def glue_law(chk, texts, tier):
             if other == base:
                 chk.violation({'why': 'whitespace inside a token is ignored: a text that is not the formula is translated as if it were', 'formula': ''.join(parts),
                                'variant': variant, 'stream': 'glue-law'})
+
+
+def insertion_law(chk, texts, tier):
+    """nothing written in an accepted formula is ignored: an empty pair of brackets put behind a literal (=5(), ="a"()) gives another text, which is rejected or translated
+    to something else - never to the class of the formula without it"""
+    import re as _re
+    rng = chk.rng
+    want = 150 if tier == 'quick' else 2000
+    fixed = ['=5', '="abc"', '=1+2', '=SUM(1,2)', '=IF(A1>0,"y","n")', '=2.5*A1', '=ROUND(12.345,1)', '="a"&"b"', '=-3', '=7%']
+    rows = lambda f: [('S', [[1, 2, None, None], [3, 4, None, None], [None, None, None, None], [None, None, None, f]])]
+    done = 0
+    for text in fixed + texts:
+        if done >= want:
+            break
+        parts = split_texts(text)
+        cands = [i for i, p in enumerate(parts) if _re.fullmatch(r'\d+(\.\d+)?|"[^"]*"', p) and not (i + 1 < len(parts) and parts[i + 1].startswith(('(', ':', '!')))]
+        if not cands:
+            continue
+        try:
+            base = realcode.translate(rows(''.join(parts)), entry=(0, 3, 3))
+        except Exception:
+            continue
+        done += 1
+        for i in rng.sample(cands, min(2, len(cands))):
+            for ins in ('()', ' ( )'):
+                variant = ''.join(parts[:i + 1] + [ins] + parts[i + 1:])
+                try:
+                    other = realcode.translate(rows(variant), entry=(0, 3, 3))
+                except Exception:
+                    chk.count('law:insertion:variant-rejected')
+                    chk.seen(('insertion', variant))
+                    continue
+                chk.count('law:insertion:variant-translated')
+                chk.seen(('insertion', variant))
+                if other == base:
+                    chk.violation({'why': 'a pair of brackets written behind a literal is dropped: the text is translated as if it were not there', 'formula': ''.join(parts),
+                                   'variant': variant, 'stream': 'insertion-law'})
 
 
 def sensitivity_law(chk, texts, tier):
